@@ -561,6 +561,34 @@ func initMiscIntrinsics() {
 		it := a[0].(iface)
 		return iface{t: rtypeT, v: rtype{t: it.t}}, true
 	})
+	// maps.clone is implemented in the runtime (linkname): shallow copy of a map held in an interface
+	reg("maps.clone", func(fr *frame, a []value) (value, bool) {
+		it, ok := a[0].(iface)
+		if !ok {
+			return nil, false
+		}
+		m, ok := it.v.(*mapV)
+		if !ok {
+			return nil, false
+		}
+		if m == nil {
+			return it, true
+		}
+		c := makeMap(m.keyType)
+		for _, e := range m.entries {
+			if e.deleted {
+				continue
+			}
+			ne := &mapEntry{key: e.key, val: copyVal(e.val)}
+			c.entries = append(c.entries, ne)
+			if ck, conc := concreteKey(e.key); conc {
+				c.index[ck] = ne
+			} else {
+				c.nsym++
+			}
+		}
+		return iface{t: it.t, v: c}, true
+	})
 	reg("reflect.DeepEqual", func(fr *frame, a []value) (value, bool) {
 		return deepEqual(fr, a[0], a[1], 0), true
 	})
